@@ -19,7 +19,7 @@ const FRAGMENTS: &[&str] = &[
     "- ", "* ", "+ ", "1. ", "1) ", "10. ", "> ", ">", "# ", "## ", "###### ", "####### ", "```", "~~~", "```rust", "    ", "\t", "---", "***", "___", "===",
     "|", "| a | b |", "|---|---|", "|:-:|", "[", "]", "(", ")", "[x](y)", "[[w]]", "[[w|p]]", "![i](u)", "<div>", "</div>", "<!--", "-->", "<b>", "<http://x.y>",
     "\\", "\\*", "&amp;", "&#x20;", "&#0;", "*", "**", "_", "`", "``", "~~", "$", "$$", "[^1]", "[^1]: note", "[ref]: http://r", "[a][ref]", ": def",
-    "word", "two words", "über", "日本", "😀", "\u{200b}", "\u{feff}", "  ", "\n", "\n\n", "\r\n", "\r", "  \n", "- [ ] task", "- [x] done", "---\ntitle: x\n---", "%%", "{#id}",
+    "word", "two words", "über", "日本", "😀", "\u{200b}", "\u{feff}", "  ", "\n", "\n\n", "\r\n", "\r", "  \n", "- [ ] task", "- [x] done", "---\ntitle: x\n---", "%%", "{#id}", "![[a]|b](c)]]",
 ];
 
 pub fn soup(rng: &mut Rng, max: usize) -> String {
@@ -63,6 +63,8 @@ const SHAPES: &[&str] = &[
     "- W\n\n  | W | W |\n  |---|---|\n  | W | W |\n\n  W\n",
     "- | W |\n  |---|\n",
     "[W](n2)\n\n# W\n\n[W](n2)\n[W](n2)\n",
+    "![[W]|W](W)]]\n",
+    "see ![[W]|W](W.png)]] here\n",
     "- [W](n2)\n\n  [W](n2)\n",
     " <div>\nW\n</div>\n",
     "W\n===\nW\n---\n",
@@ -220,8 +222,14 @@ fn drive_lsp(text: &str, out: &mut Vec<(String, String)>, counters: &mut u64) ->
             let _ = s.request(m, p);
         }
     }
-    // every panic on any server thread is a finding, also when it was turned into an error response
+    // every panic on any server thread is a finding, also when it was turned into an error response - except a panic
+    // inside the Markdown parser itself that iwe contains (since /repo 2ef07d3 the reader catches it and parses the text
+    // again without wiki links): the panic hook still sees it, but nothing escaped. Had it escaped on the loop thread, the
+    // LoopPanicked event above reports it; on the API path mon::catch does.
     for p in mon::drain_thread_panics() {
+        if p.file.contains("pulldown-cmark") {
+            continue;
+        }
         out.push((p.signature(), format!("server thread `{}` at {}:{}: {}", p.thread, p.file, p.line, p.message.chars().take(160).collect::<String>())));
     }
     for e in lsp::events_since(0) {
